@@ -50,6 +50,8 @@ inductive Expr where
   | callVal (f : Expr) (args : List Expr)            -- call of a local variable holding a validate function
   | attrCall (e : Expr) (m : String) (args : List Expr)   -- `local.validate(...)`
   | tupleZip (i j : Nat) (xs ys : Expr) (elt : Expr)  -- `tuple(elt for loc_i, loc_j in zip(xs, ys))`
+  | emptyList                                        -- `[]`
+  | subscript (e idx : Expr)                         -- `e[idx]` with a variable index
   | unsupported (text : String)
   deriving Repr
 
@@ -63,6 +65,8 @@ inductive Stmt where
   | pass
   | seq (a b : Stmt)
   | forIn (i : Nat) (iter : Expr) (body : Stmt)      -- `for loc_i in iter: body`
+  | forEnum (i j : Nat) (iter : Expr) (body : Stmt)  -- `for loc_i, loc_j in enumerate(iter): body`
+  | append (i : Nat) (e : Expr)                      -- `loc_i.append(e)`
 inductive Handlers where
   | nil
   | cons (spec : ExcSpec) (body : Stmt) (rest : Handlers)
@@ -89,6 +93,7 @@ inductive PV where
   | tyOf (v : Val)                 -- `type(value)`
   | fnv (g : Val → Res)            -- a CTrait / handler seen through its `validate(object, name, ·)`
   | fns (gs : List (Val → Res))    -- a list / tuple of those
+  | lst (xs : List PV)             -- a local list being built
   | self_ | hobj | name | selfCls  -- the handler, the HasTraits object, the trait name, `object.__class__`
 
 /-- A raised exception: TraitError (raised by `self.error`), or an exception of the value's
@@ -190,6 +195,7 @@ def builtin {R : Type} (C : Ctx) (f : String) (args : List PV) (k : PV → R) (k
   | "len", [.val (.tuple _ vs)] => k (.int vs.length)
   | "len", [.fns gs] => k (.int gs.length)
   | "tuple", [.val (.list vs)] => k (.val (.tuple false vs))
+  | "tuple", [.lst xs] => k (.val (.tuple false (xs.map (fun x => match x with | .val v => v | _ => Val.none))))
   | "issubclass", [.val v, .ty t] =>
     match isSubclass v t with
     | some b => k (.bool b)
@@ -237,6 +243,12 @@ def forEachPV {R : Type} (step : PV → List PV → (List PV → R) → R) :
     List PV → List PV → (List PV → R) → R
   | [], σ, kn => kn σ
   | x :: xs, σ, kn => step x σ (fun σ' => forEachPV step xs σ' kn)
+
+/-- `for i, x in enumerate(items): step i x`. -/
+def forEachI {R : Type} (step : Nat → (Val → Res) → List PV → (List PV → R) → R) :
+    Nat → List (Val → Res) → List PV → (List PV → R) → R
+  | _, [], σ, kn => kn σ
+  | n, g :: gs, σ, kn => step n g σ (fun σ' => forEachI step (n + 1) gs σ' kn)
 
 /-- `zip(gs, vs)` evaluated pairwise, left to right; an exception stops the evaluation. -/
 def zipEval {R : Type} (f : (Val → Res) → Val → (PV → R) → (PExc → R) → R) :
@@ -315,6 +327,12 @@ def evalE {R : Type} (C : Ctx) : Expr → List PV → (PV → R) → (PExc → R
         zipEval (fun g b k' ke' => evalE C elt ((σ.set i (.fnv g)).set j (.val b)) k' ke') gs vs
           (fun ws => k (.val (.tuple false (ws.map pvToVal)))) ke
       | _, _ => k .undef) ke) ke
+  | .emptyList, _, k, _ => k (.lst [])
+  | .subscript e idx, σ, k, ke =>
+    evalE C e σ (fun x => evalE C idx σ (fun i =>
+      match x, i with
+      | .val (.tuple _ vs), .int n => k (.val (vs.getD n.toNat Val.none))
+      | _, _ => k .undef) ke) ke
   | .unsupported _, _, k, _ => k .undef
 def evalArgs {R : Type} (C : Ctx) : List Expr → List PV → (List PV → R) → (PExc → R) → R
   | [], _, k, _ => k []
@@ -338,6 +356,17 @@ def exec {R : Type} (C : Ctx) : Stmt → List PV → (List PV → R) → (PV →
       | .fns gs => forEach (fun g σ' kn' => exec C body (σ'.set i (.fnv g)) kn' kr ke) gs σ kn
       | .tup xs => forEachPV (fun x σ' kn' => exec C body (σ'.set i x) kn' kr ke) xs σ kn
       | _ => kr .undef) ke
+  | .forEnum i j iter body, σ, kn, kr, ke =>
+    evalE C iter σ (fun x =>
+      match x with
+      | .fns gs =>
+        forEachI (fun n g σ' kn' => exec C body ((σ'.set i (.int n)).set j (.fnv g)) kn' kr ke) 0 gs σ kn
+      | _ => kr .undef) ke
+  | .append i e, σ, kn, _, ke =>
+    evalE C e σ (fun x =>
+      match σ.getD i .undef with
+      | .lst xs => kn (σ.set i (.lst (xs ++ [x])))
+      | _ => kn σ) ke
 def handle {R : Type} (C : Ctx) : Handlers → PExc → List PV → (List PV → R) → (PV → R) → (PExc → R) → R
   | .nil, e, _, _, _, ke => ke e
   | .cons spec body rest, e, σ, kn, kr, ke =>
@@ -415,6 +444,11 @@ def selfCfgE (E : Env) : TraitType → String → PV
     | "types" => .fns (items.map (fun t => ctraitValidate E t))
     | "no_type_check" => .bool false
     | _ => .undef
+  | .baseTuple items, a =>
+    match a with
+    | "types" => .fns (items.map (fun t => ctraitValidate E t))
+    | "no_type_check" => .bool false
+    | _ => .undef
   | .union alts, "list_ctrait_instances" => .fns (alts.map (fun t => ctraitValidate E t))
   | .functionH f, "aFunc" =>
     .fnv (fun v => match E.fn f v with | .ok w => .ok w | .error .traitError => .traitError | .error e => .raised e)
@@ -443,6 +477,7 @@ def pyMethodOf : TraitType → Option String
   | .type_ .. => some "Type.validate"
   | .noneTrait => some "_NoneTrait.validate"
   | .tuple _ => some "Tuple.validate"
+  | .baseTuple _ => some "BaseTuple.validate"
   | .union _ => some "Union.validate"
   | .compoundH _ => some "TraitCompound.validate"
   | .coerceH _ => some "TraitCoerceType.validate"
